@@ -27,8 +27,8 @@ ASSUMPTIONS = [
     "common_charge_centre / shared_determinants; with shared_determinants only the magnitude bounds are asserted: "
     "that option copies determinants between covalently coupled groups regardless of their charge (the coupled-residue display mode re-orders interactions on "
     "purpose and is not included)",
-    "side-chain bound: 2 x sidechain_interaction, except CYS-CYS pairs, which may take the configured CYS_CYS "
-    "exception value; the other configured exception values (1.60) are below the bound anyway",
+    "side-chain bound: 2 x sidechain_interaction, except pairs of the types that have a configured exception value "
+    "(CYS-CYS, COO-HIS, OCO-HIS, CYS-HIS), which may take that value; maxima are read from the parameters the run used",
 ]
 COULOMB_SCALING = 244.12
 DIEL_BURIED = 30.0
@@ -61,6 +61,9 @@ def check_case(case):
     elif case.get("flags"):
         from props import c02
         opt = ["-p", c02.variant_cfg(case["flags"])]
+    elif case.get("cfgspec"):
+        from vlib import cfgs
+        opt = cfgs.options(case["cfgspec"])
     rec = observe.run(text, opt, name="a", keep_mol=True)
     if rec["error"]:
         return [], {"labels": ["error:" + rec["error"]["type"]]}
@@ -104,8 +107,13 @@ def check_case(case):
             for pk, lab, val in g["dets"]["sidechain"]:
                 partner = by_key.get(pk)
                 limit = 2 * hb_max
-                if partner is not None and {g["type"], partner["type"]} == {"CYS"}:
-                    limit = max(limit, float(p.CYS_CYS_exception))
+                if partner is not None:
+                    pair = frozenset((g["type"], partner["type"]))
+                    exc = {frozenset(("CYS",)): p.CYS_CYS_exception, frozenset(("COO", "HIS")): p.COO_HIS_exception,
+                           frozenset(("OCO", "HIS")): p.OCO_HIS_exception,
+                           frozenset(("CYS", "HIS")): p.CYS_HIS_exception}.get(pair)
+                    if exc is not None:
+                        limit = max(limit, float(exc))
                 if abs(val) > limit + eps:
                     bad("sidechain-bound", "%r from %s exceeds %r" % (val, lab, limit))
                 if partner is not None and partner["hetatm"]:
@@ -218,16 +226,32 @@ def run_shard(ctx):
             # with determinant sharing only the magnitude bounds are asserted (see check_case)
             flags = {"shared_determinants": draw(st.integers(0, 1)), "remove_penalised_group": draw(st.integers(0, 1)),
                      "common_charge_centre": draw(st.integers(0, 1))}
-        return s, allowance, flags
+        spec = None
+        if not allowance and not flags and draw(st.integers(0, 3)) == 0:
+            # other configured maxima / exclusions: the bounds are read from the parameters the run used, and runs with
+            # different parameter files alternate within one process
+            spec = {}
+            if draw(st.booleans()):
+                spec["changes"] = {"sidechain_interaction": draw(st.sampled_from(["0.30", "0.50", "1.20"]))}
+            if draw(st.booleans()):
+                spec.setdefault("changes", {})["coulomb_cutoff1"] = draw(st.sampled_from(["3.0", "5.0"]))
+            k = draw(st.integers(0, 2))
+            if k or not spec:
+                spec["extra"] = ["exclude_sidechain_interactions %s" % r for r in
+                                 draw(st.lists(st.sampled_from(["TYR", "HIS", "CYS", "LYS", "ASP", "GLU"]),
+                                               min_size=1, max_size=2, unique=True))]
+        return s, allowance, flags, spec
 
     def body(t):
-        s, allowance, flags = t
-        case = {"pdb": s.text, "allowance": allowance, "flags": flags}
+        s, allowance, flags, spec = t
+        case = {"pdb": s.text, "allowance": allowance, "flags": flags, "cfgspec": spec}
         v, info = check_case(case)
         info["labels"] = info.get("labels", []) + [l for l in s.labels if l.startswith("cluster:")] + \
-            (["allowance>0"] if allowance else []) + (["cfg-variant"] if flags else [])
+            (["allowance>0"] if allowance else []) + (["cfg-variant"] if flags else []) + \
+            (["cfg:" + "+".join(sorted((spec.get("changes") or {}).keys()) + (["exclude"] if spec.get("extra") else []))]
+             if spec else [])
         info["sample"] = {"structure": s.summary(), "threaded": s.info.get("mutated"), "desolvationAllowance": allowance, "flags": flags,
-                          "classes": info.get("labels", [])[:10]}
+                          "cfgspec": spec, "classes": info.get("labels", [])[:10]}
         ctx.account(case, v, info)
 
     ctx.hypothesis_stage("structures", cases(), body, 900 if quick else 12000)
